@@ -5,12 +5,18 @@ P = dict(
     stall_s=120,
     confirm_s=60,
     level='exploration',
-    technique='runtime monitoring under stress: ThreadSanitizer build (race reports parsed and de-duplicated by the driver) and ASan/UBSan build of 2..16 threads running seeded allocation scripts through the real operator new/delete/malloc/realloc/free overloads against a private detector, with the mutex seams wrapped for owner tracking, lock log and yield/sleep injection at acquire/release; post-join conservation/exactness oracle; deterministic misuse-while-locked scenarios observed by the mutex monitor',
-    rule='case = one concurrent run (threads in {2,3,4,8[,16]}, 300..5000 operations per thread over new/new[]/nothrow/debug forms, malloc, realloc, cross-thread hand-off of blocks through a mailbox, 0..45% of lock operations perturbed by sched_yield/nanosleep) or one misuse scenario '
+    technique='runtime monitoring under stress: ThreadSanitizer build (race reports parsed and de-duplicated by the driver) and ASan/UBSan build of 2..16 threads running seeded allocation scripts through the real operator new/delete/malloc/realloc/free overloads against a private detector, with the mutex seams wrapped for owner tracking, lock log and yield/sleep injection at acquire/release; a mutual-exclusion monitor in every callback the detector makes from inside its accounting code (allocator alloc/free, platform realloc seam) that dwells when the calling thread does not own the detector mutex, so that the overlap a missing lock permits really happens (forced pre-emption; the verdict is the observed overlap, keyed by the entry points that arrived without the lock); post-join conservation/exactness oracle; deterministic misuse-while-locked scenarios observed by the mutex monitor',
+    rule='case = one concurrent run (threads in {2,3,4,8[,16]}, 300..5000 operations per thread over new/new[]/nothrow/debug forms, every public release form (plain, sized, nothrow, located placement delete/delete[](void*,file,int|size_t) called directly and, in the builds with exceptions, by the compiler after a constructor threw inside new(file,line) T / T[n]), malloc, calloc, realloc, free with and without location, detector period while the threads run in {enabled, checking, disabled}, cross-thread hand-off of blocks through a mailbox, 0..45% of lock operations perturbed by sched_yield/nanosleep) or one misuse scenario '
          '(entry point in {delete, delete[], free, realloc} x {guard overrun, non-allocated address, family mismatch} x 4 sizes, complete). '
          'Non-trivial = concurrent run whose lock log shows >= 100 hand-offs between different threads, distinct by the hash of the first 64 owner changes (i.e. distinct interleavings actually observed); every misuse scenario',
     floor=dict(quick=40, thorough=300),
-    counter_floor=dict(quick=dict(lock_handoffs_between_threads=20000, misuse_scenarios=48), thorough=dict(lock_handoffs_between_threads=500000)),
+    counter_floor=dict(quick=dict(lock_handoffs_between_threads=20000, misuse_scenarios=48, runs_in_detector_period_disabled=10, runs_in_detector_period_checking=10, runs_in_detector_period_enabled=10,
+                                  releases_located_placement_form_direct=5000, releases_located_placement_form_after_constructor_throw=1000, releases_sized_form=3000, releases_nothrow_form=3000, realloc_seam_calls_under_lock=5000),
+                       thorough=dict(lock_handoffs_between_threads=500000, runs_in_detector_period_disabled=100, runs_in_detector_period_checking=100, runs_in_detector_period_enabled=100,
+                                     releases_located_placement_form_direct=100000, releases_located_placement_form_after_constructor_throw=20000, releases_sized_form=50000, releases_nothrow_form=50000, realloc_seam_calls_under_lock=100000)),
     assumptions=['TSan only understands the pthread mutex it intercepts (the detector uses one)', 'the statistic malloc_count/countdown in TestHarness_c.cpp is outside "detector state" (cfg/tsan.supp, top frame only)',
-                 'interleavings are sampled, not enumerated: the evidence lists hand-offs and distinct owner sequences seen', 'D10 (lock left held when a misuse is reported in thread-safe mode) is a known finding, see known_findings.json'],
+                 'interleavings are sampled, not enumerated: the evidence lists hand-offs and distinct owner sequences seen', 'D10 (lock left held when a misuse is reported in thread-safe mode) is a known finding, see known_findings.json',
+                 'a callback from the detector on a thread that does not own the detector mutex is not a violation by itself: the monitor only uses it to dwell (<= ~10 ms, until the first overlap of the run); what is flagged is two threads inside the accounting code at once',
+                 'the detector period is set before the threads start and not changed while they run (enable()/disable()/startChecking() are not themselves thread-safe operations of the statement)',
+                 'throwing constructors under located new exist only in the builds with exceptions (tsan, asan); the tsan-noexc build calls the located placement delete forms directly'],
 )
